@@ -236,7 +236,11 @@ func storeRun(args []string) error {
 			id := pick(r, ids)
 			switch k := r.Intn(12); {
 			case k <= 4:
-				add("Store", "id", id, "doc", proj.Doc(storeDoc(r, id)), "nc", r.Intn(3) == 0)
+				pd := proj.Doc(storeDoc(r, id))
+				if r.Intn(5) == 0 {
+					pd["unk"] = 9 // fields this version of the schema does not know (written by a newer one) belong to the document
+				}
+				add("Store", "id", id, "doc", pd, "nc", r.Intn(3) == 0)
 				retrieveAll()
 			case k <= 6:
 				add("Retrieve", "id", pick(r, append(ids, "never-stored")))
@@ -336,6 +340,16 @@ func storeChild(args []string) error {
 			switch str(ev, "op") {
 			case "Store":
 				doc := proj.ToDoc(obj(ev, "doc"))
+				if doc != nil && integer(obj(ev, "doc"), "unk") > 0 {
+					unk := []byte{0xc0, 0x3e, 0x07} // field 1000, varint 7
+					doc.ProtoReflect().SetUnknown(unk)
+					if doc.Metadata != nil {
+						doc.Metadata.ProtoReflect().SetUnknown(unk)
+					}
+					if doc.NodeList != nil {
+						doc.NodeList.ProtoReflect().SetUnknown(unk)
+					}
+				}
 				nc, _ := ev["nc"].(bool)
 				// odd steps go through the writer's Store API with the backend installed, even steps call the backend directly
 				var err error
@@ -373,7 +387,18 @@ func storeChild(args []string) error {
 				case doc == nil:
 					res["kind"] = "neither"
 				default:
-					ev["doc"] = proj.Doc(doc)
+					pd := proj.Doc(doc)
+					n := len(doc.ProtoReflect().GetUnknown())
+					if doc.Metadata != nil {
+						n += len(doc.Metadata.ProtoReflect().GetUnknown())
+					}
+					if doc.NodeList != nil {
+						n += len(doc.NodeList.ProtoReflect().GetUnknown())
+					}
+					if n > 0 {
+						pd["unk"] = n
+					}
+					ev["doc"] = pd
 				}
 			case "RemoveDir":
 				os.Chmod(storeDir, 0o755)
